@@ -53,7 +53,7 @@ Step(rq) == Do(rq) /\ h' = Append(h, Rec(rq))
 
 \* Flavour "script16": the C16 script of the standalone role only (the standalone scripts of "script" are C19's)
 IsScript == Flavour \in {"script", "script16"}
-ScriptIds == CASE Role = "replica" -> {14, 15} [] Role = "primary" -> {16, 20}
+ScriptIds == CASE Role = "replica" -> {14, 15} [] Role = "primary" -> {16, 20, 22}
                [] OTHER -> IF Flavour = "script16" THEN {21} ELSE (1..13) \cup {17, 18, 19}
 GInit == Init /\ h = <<>> /\ phase = "run" /\ sid \in (IF IsScript THEN ScriptIds ELSE {0})
 
@@ -251,7 +251,14 @@ Scripts == <<
   \* 21 (standalone, in-process): the same on a node without a replication manager
   << Q("nodeinfo"), [Q("put") EXCEPT !.k = K1, !.v = "v1"], [Q("setro") EXCEPT !.ro = TRUE], Q("nodeinfo"),
      [Q("put") EXCEPT !.k = K1, !.v = "v2"], [Q("del") EXCEPT !.via = "emb", !.k = K1], [Q("apply_del") EXCEPT !.k = K1],
-     [Q("get") EXCEPT !.k = K1], [Q("setro") EXCEPT !.ro = FALSE], Q("nodeinfo"), [Q("put") EXCEPT !.k = K1, !.v = "v3"] >>
+     [Q("get") EXCEPT !.k = K1], [Q("setro") EXCEPT !.ro = FALSE], Q("nodeinfo"), [Q("put") EXCEPT !.k = K1, !.v = "v3"] >>,
+  \* 22 (primary, in-process): a read-write transaction begun before the node became read-only must not commit afterwards,
+  \* through either API; one without writes may
+  << [Q("begin") EXCEPT !.ro = FALSE], Tx("txput", 1, K1, "v1"), [Q("setro") EXCEPT !.ro = TRUE], Tx("txput", 1, K2, "v2"),
+     Tx("txget", 1, K1, ""), Tx("commit", 1, <<>>, ""), [Q("get") EXCEPT !.k = K1], Q("nodeinfo"), [Q("setro") EXCEPT !.ro = FALSE],
+     [Q("begin") EXCEPT !.via = "emb", !.ro = FALSE], [Tx("txput", 2, K3, "v3") EXCEPT !.via = "emb"], [Q("setro") EXCEPT !.ro = TRUE],
+     [Tx("commit", 2, <<>>, "") EXCEPT !.via = "emb"], [Q("get") EXCEPT !.k = K3], [Q("setro") EXCEPT !.ro = FALSE],
+     [Q("begin") EXCEPT !.ro = FALSE], [Q("setro") EXCEPT !.ro = TRUE], Tx("commit", 3, <<>>, ""), [Q("put") EXCEPT !.k = K1, !.v = "v1"] >>
 >>
 SweepScripts == {11, 12, 18, 19}
 Edgy == sid \in {18, 19}
